@@ -3,7 +3,7 @@
    the ledger's. It is closed under the moves of Proofs/CliFlowMoves.v while the server's grants keep every
    window at or below 2^31-1 (LB), so every run is a valid history. *)
 From H2V Require Import Base.Bytes Base.MachineInt Base.Result Gen.GenConsts Impl.ServerConn Impl.ClientConn
-     Proofs.CliDefs Spec.FlowLedger Proofs.SrvFlowLedger Proofs.CliFlowMoves Proofs.CliFlowOut.
+     Proofs.CliDefs Spec.FlowLedger Proofs.SrvFlowLedger Proofs.CliFlowMoves Proofs.CliFlowOut Proofs.CliFlowSettings.
 From Coq Require Import ZArith Lia ZifyN ZifyNat ZifyBool List Bool.
 Import ListNotations.
 Local Open Scope N_scope.
@@ -41,22 +41,6 @@ Lemma GOK_pre L a b : GOK L (a ++ b) -> LB (lrun L a).
 Proof. intro G. apply (G a b). reflexivity. Qed.
 
 (* ---------- SETTINGS_INITIAL_WINDOW_SIZE: payload, Settings.Read and the ledger ---------- *)
-
-Lemma bytes6_ind (P : bytes -> Prop) :
-  (forall d, (length d < 6)%nat -> P d) ->
-  (forall k1 k0 v3 v2 v1 v0 rest, P rest -> P (k1 :: k0 :: v3 :: v2 :: v1 :: v0 :: rest)) ->
-  forall d, P d.
-Proof.
-  intros Hs Hc. fix IH 1. intro d.
-  destruct d as [|k1 [|k0 [|v3 [|v2 [|v1 [|v0 rest]]]]]]; try (apply Hs; cbn; lia).
-  apply Hc. apply IH.
-Qed.
-
-Lemma settings_pairs_short d : (length d < 6)%nat -> settings_pairs d = [].
-Proof. destruct d as [|k1 [|k0 [|v3 [|v2 [|v1 [|v0 rest]]]]]]; cbn; try reflexivity. lia. Qed.
-
-Lemma settings_read_short d st : (length d < 6)%nat -> cl_settings_read d st = Some st.
-Proof. destruct d as [|k1 [|k0 [|v3 [|v2 [|v1 [|v0 rest]]]]]]; cbn [length cl_settings_read]; try reflexivity. lia. Qed.
 
 (* the window part of a settings value *)
 Definition win_of (st : csettings) : option Z := if cs_hasWin st then Some (Z.of_N (cs_window st)) else None.
@@ -451,7 +435,7 @@ Lemma headers_Sim (c : cconn) L blk opb :
   valid (MHeaders blk opb) c -> Sim c L -> LB L ->
   Sim (apply (MHeaders blk opb) c) (lstep L (LOpen (cc_nextID c))).
 Proof.
-  intros (CW & IDS & GA & OP & RQ & PB) [s1 s2 s3 s4 s5 s6 s7 s8] [B1 B2].
+  intros (CW & IDS & GA & OP & RQ & PB & _) [s1 s2 s3 s4 s5 s6 s7 s8] [B1 B2].
   assert (NS : l_strm L (cc_nextID c) = None).
   { destruct (l_strm L (cc_nextID c)) as [w|] eqn:E; [|reflexivity]. apply s6 in E. flia. }
   cbn [lstep]. rewrite NS. cbn [apply]. rewrite (u32_next _ IDS).
@@ -507,16 +491,14 @@ Proof.
   - (* MReqTake *)
     split; [exact I|]. cbn [apply]. unfold cl_take_req_count. destruct (cl_req_find _ _); [|exact S].
     apply (Sim_same c); try reflexivity; auto.
-  - (* MInQPop *) split; [exact I|]. apply (Sim_same c); try reflexivity; auto.
-  - (* MQClear *) split; [exact I|]. apply (Sim_same c); try reflexivity; auto. cbn [apply]. cc_cbn. constructor.
   - (* MOutQPush *)
     split; [exact I|]. cbn [apply]. destruct (pushb o) eqn:Q; [|exact S]. apply write_out_Sim; [|exact S].
     destruct o; try discriminate; exact I.
   - (* MWlWrite *)
     destruct S as [s1 s2 s3 s4 s5 s6 s7 s8]. cbn [apply]. destruct (cc_outQ c) as [|o q] eqn:Q.
     + cbn [ledger_out flat_map lvalid lrun fold_left]. split; [exact I|]. constructor; auto. rewrite Q. constructor.
-    + inversion s8; subst. rewrite (ledger_out_qclass [o]) by (constructor; [assumption | constructor]).
-      cbn [lvalid lrun fold_left]. split; [exact I|]. constructor; cc_cbn; auto.
+    + inversion s8 as [|? ? QO QT]; subst.
+      destruct o; try (exfalso; exact QO); cbn [flat_map app lvalid lrun fold_left]; (split; [exact I|]); constructor; cc_cbn; auto.
   - (* MOutQDrop *)
     split; [exact I|]. apply (Sim_same c); try reflexivity; auto. cbn [apply]. cc_cbn.
     intro H. destruct (cc_outQ c); [exact H | inversion H; assumption].
@@ -547,7 +529,7 @@ Proof.
     + intros p HP. apply (pend_put_In _ _ _ s4) in HP. destruct HP as [->|[HP _]]; [rewrite RI; apply s5; exact HI | apply s5; exact HP].
     + intros p HP. apply (pend_put_In _ _ _ s4) in HP. destruct HP as [->|[HP _]]; [rewrite RI, RW; apply s7; exact HI | apply s7; exact HP].
   - (* MSend *)
-    destruct V as (pb & G & _). apply send_Sim; assumption.
+    destruct V as (pb & G & _). apply (send_Sim c L id wr pb); assumption.
   - (* MEncSync *)
     split; [exact I|]. cbn [apply]. destruct (negb _); [|exact S]. apply (Sim_same c); try reflexivity; auto.
   - (* MNextID *)
@@ -557,4 +539,140 @@ Proof.
   - (* MHeaders *)
     split; [split; exact I|]. apply headers_Sim; assumption.
 Qed.
+
+(* ---------- sequences of moves ---------- *)
+
+Fixpoint mlof (c : cconn) (ms : list move) : list levent :=
+  match ms with
+  | [] => []
+  | m :: t => lof m c ++ mlof (apply m c) t
+  end.
+
+Lemma mvs_Sim (c : cconn) ms c' : mvs enc_field enc_set_max c ms c' -> Forall mv_pos ms ->
+  forall L, Sim c L -> GOK L (mlof c ms) -> lvalid L (mlof c ms) /\ Sim c' (lrun L (mlof c ms)).
+Proof.
+  induction 1 as [c|c m ms c' V M IH]; intros P L S G; cbn [mlof] in *.
+  - split; [exact I | exact S].
+  - inversion P as [|? ? P1 P2]; subst.
+    assert (B : LB L) by (eapply GOK_nil; exact G).
+    assert (BG : LB (lrun L (grants_of m))).
+    { unfold lof in G. rewrite <- app_assoc in G. eapply GOK_pre. exact G. }
+    destruct (mv_Sim m c L V P1 S B BG) as [V1 S1].
+    apply GOK_app in G. destruct G as [_ G2].
+    destruct (IH P2 _ S1 G2) as [V2 S2].
+    split; [apply lvalid_app; split; assumption | rewrite lrun_app; exact S2].
+Qed.
+
+Lemma items_rl_quiet e m (c : cconn) : is_rl e -> ev_ok e m -> ledger_out (items m c) = [].
+Proof.
+  intros R E. destruct e; try contradiction. destruct m; cbn [items]; try reflexivity; try (cbn in E; first [contradiction | discriminate]).
+  destruct (quietb o) eqn:Q; [|reflexivity]. destruct o; try discriminate; reflexivity.
+Qed.
+
+Lemma grants_not_rl e (m : move) : ~ is_rl e -> ev_ok e m -> grants_of m = [].
+Proof.
+  intros R E. destruct m; try reflexivity; cbn in E; destruct E as (fr & -> & _); exfalso; apply R; exact I.
+Qed.
+
+Lemma mlof_split e ms : Forall (ev_ok e) ms -> forall (c : cconn),
+  mlof c ms = flat_map grants_of ms ++ ledger_out (mitems hstate enc_field enc_set_max c ms).
+Proof.
+  intro F. assert (RL : is_rl e \/ ~ is_rl e) by (destruct e; cbn; tauto).
+  induction F as [|m t Hm Ht IH]; intro c; cbn [mlof flat_map mitems]; [reflexivity|].
+  rewrite IH, ledger_out_app. unfold lof. destruct RL as [R|R].
+  - rewrite (items_rl_quiet e m c R Hm). cbn [app]. rewrite app_nil_r, app_assoc. reflexivity.
+  - rewrite (grants_not_rl e m R Hm). cbn [app]. assert (E : flat_map grants_of t = []).
+    { clear IH. induction Ht as [|m' t' Hm' Ht' IH']; [reflexivity|]. cbn [flat_map]. rewrite (grants_not_rl e m' R Hm'), IH'. reflexivity. }
+    rewrite E. reflexivity.
+Qed.
+
+Lemma ev_ok_pos e (m : move) : ev_ok e m -> mv_pos m.
+Proof. destruct m; cbn [ev_ok mv_pos]; try (intros; exact I). intros (fr & _ & _ & _ & ->). flia. Qed.
+
 End Sim.
+
+(* ---------- the run as a history of the server's ledger ---------- *)
+
+Section Run.
+Variable hstate : Type.
+Variable dec_field : hstate -> N -> bytes -> dec_res hstate.
+Variable enc_field : hstate -> bytes -> bytes -> bool -> bytes * hstate.
+Variable enc_set_max : hstate -> N -> hstate.
+Variable cfg : cl_config.
+Variable h0 : hstate.
+Notation cconn := (cconn hstate).
+Notation step := (cl_step dec_field enc_field enc_set_max cfg).
+
+(* what a step means to the ledger: the grants it takes in, then the streams it opens and the DATA it sends *)
+Definition g_tl_step (c : cconn) (e : cevent) : list levent :=
+  g_ledger_in hstate c e ++ ledger_out (g_new hstate c (step c e)).
+
+Fixpoint g_timeline_from (c : cconn) (evs : list cevent) : list levent :=
+  match evs with
+  | [] => []
+  | e :: t => g_tl_step c e ++ g_timeline_from (step c e) t
+  end.
+
+Definition g_ledger (first : bytes) (evs : list cevent) : list levent :=
+  inits_of first ++ g_timeline_from (cl_init enc_set_max h0 first) evs.
+
+Lemma step_Sim (c : cconn) e L : Sim hstate c L -> GOK L (g_tl_step c e) ->
+  lvalid L (g_tl_step c e) /\ Sim hstate (step c e) (lrun L (g_tl_step c e)).
+Proof.
+  intros S G. destruct (step_D hstate dec_field enc_field enc_set_max cfg c e) as (ms & M & F & GR & _).
+  assert (E : g_tl_step c e = mlof hstate enc_field enc_set_max c ms).
+  { unfold g_tl_step. rewrite (mlof_split hstate enc_field enc_set_max e ms F c), GR, (mvs_new _ _ _ _ _ _ M). reflexivity. }
+  rewrite E in *. apply (mvs_Sim hstate enc_field enc_set_max c ms _ M); [|exact S | exact G].
+  eapply Forall_impl; [|exact F]. apply ev_ok_pos.
+Qed.
+
+Lemma timeline_valid evs : forall (c : cconn) L, Sim hstate c L -> GOK L (g_timeline_from c evs) ->
+  lvalid L (g_timeline_from c evs).
+Proof.
+  induction evs as [|e t IH]; intros c L S G; cbn [g_timeline_from]; [exact I|].
+  apply GOK_app in G. destruct G as [G1 G2]. destruct (step_Sim c e L S G1) as [V1 S1].
+  apply lvalid_app. split; [exact V1 | apply IH; assumption].
+Qed.
+
+Lemma Sim_init first : cl_settings_deserialize false first <> None ->
+  Sim hstate (cl_init enc_set_max h0 first) (lrun ledger0 (inits_of first)).
+Proof.
+  intro NN. unfold cl_init. destruct (cl_settings_deserialize false first) as [st|] eqn:DS; [|congruence].
+  destruct (deserialize_win _ _ DS) as [WO WS]. pose proof (inits_of_linit first) as AL.
+  destruct (lrun_inits _ AL ledger0) as (LI & LC & LS). rewrite (last_init_spec _ AL), <- WO in LI.
+  destruct (deserialize_facts _ _ DS) as (_ & _ & _ & HW & HAS).
+  assert (H4 : cl_settings_has st c_MaxWindowSize = cs_hasWin st) by (rewrite HW; apply HAS; unfold c_MaxWindowSize; flia).
+  unfold win_of in *. cbn [cl_settings_merge cs_window]. rewrite H4.
+  assert (NS : forall x, l_strm (lrun ledger0 (inits_of first)) x = None) by (intro x; rewrite LS; reflexivity).
+  destruct (cs_hasWin st).
+  - cbn [win_small] in WS. rewrite cl_i32_id by flia.
+    constructor; cc_cbn; try (rewrite LC); cbn [ledger0 l_conn]; try exact LI; unfold MAXW, DEFAULT_WINDOW, c_defaultWindowSize; try flia.
+    + constructor.
+    + intros pb [].
+    + intros x w. rewrite NS. discriminate.
+    + intros pb [].
+    + constructor.
+  - cbn [cs_window cl_settings_default]. rewrite cl_i32_id by (unfold c_defaultWindowSize; flia).
+    constructor; cc_cbn; try (rewrite LC); cbn [ledger0 l_conn l_init] in *; try exact LI; unfold MAXW, DEFAULT_WINDOW, c_defaultWindowSize; try flia.
+    + constructor.
+    + intros pb [].
+    + intros x w. rewrite NS. discriminate.
+    + intros pb [].
+    + constructor.
+Qed.
+
+(* C07 (a), window form: while the server's grants keep every window at or below 2^31-1, every DATA frame the
+   client writes fits the connection window and its stream's window of the server's ledger at that moment *)
+Theorem ledger_safe first evs : cl_settings_deserialize false first <> None ->
+  GOK ledger0 (g_ledger first evs) -> lvalid ledger0 (g_ledger first evs).
+Proof.
+  intros NN G. unfold g_ledger in *. apply GOK_app in G. destruct G as [_ G].
+  apply lvalid_app. split; [apply lvalid_linits, inits_of_linit|].
+  apply timeline_valid; [apply Sim_init; exact NN | exact G].
+Qed.
+
+Theorem ledger_within_grants first evs : cl_settings_deserialize false first <> None ->
+  GOK ledger0 (g_ledger first evs) -> within_grants (g_ledger first evs).
+Proof. intros NN G. apply lvalid_within_grants. apply ledger_safe; assumption. Qed.
+
+End Run.
